@@ -43,6 +43,9 @@ Entries == {"Endorsement", "EndorsementProto", "SNPFunc_blob", "SNPFunc_opts", "
             \* the caller supplies the endorsement of the row while the attestation also carries a genuine
             \* one: the supplied endorsement is the one policy and verdict are derived from
             "SNPFunc_opts_plus_genuine_blob", "SevValidate_opts_plus_genuine_extra", "cli_sev_plus_genuine_extra",
+            \* the bucket serves the row's endorsement to the first request and a genuine one to any later
+            \* request: what was downloaded first is what policy AND verdict are derived from
+            "SevValidate_getter_then_genuine",
             "cli_verify", "cli_sev_validate", "cli_tdx_validate"}
 
 Rows == [payload : Payloads, sig : Sigs, cert : Certs, roots : Roots, time : Times, prov : Provs, entry : Entries]
@@ -64,7 +67,7 @@ Enter ==
        THEN \* policy derived straight from the unverified endorsement; the quote matches it
             IF row.payload = "unparseable" THEN Reject("reject:policy") ELSE Reject("accept")
        ELSE \* SevPolicy / TdxPolicy parse the payload before the verifier sees it
-            IF row.entry \in {"SevValidate_opts", "SevValidate_extra", "SevValidate_getter", "cli_sev_validate",
+            IF row.entry \in {"SevValidate_opts", "SevValidate_extra", "SevValidate_getter", "SevValidate_getter_then_genuine", "cli_sev_validate",
                               "SevValidate_opts_plus_genuine_extra", "cli_sev_plus_genuine_extra",
                               "TdxValidate_opts", "cli_tdx_validate"} /\ row.payload = "unparseable"
               THEN Reject("reject:policy")
